@@ -11,6 +11,10 @@ import traceback
 from collections import Counter
 
 
+THOROUGH_ROUNDS = {'C01': 8, 'C02': 6, 'C03': 5, 'C04': 5, 'C05': 5, 'C06': 10, 'C07': 4, 'C08': 8, 'C09': 3, 'C10': 5,
+                   'C11': 3, 'C12': 10, 'C13': 10, 'C14': 1, 'C15': 3, 'C16': 10, 'C17': 10, 'C18': 8, 'C19': 8, 'C20': 1}
+
+
 def load_check(prop: str):
     return importlib.import_module(f'vf.checks.{prop.lower()}')
 
@@ -69,8 +73,22 @@ def main(argv):
     mod = load_check(prop)
     if hasattr(mod, 'setup'):
         mod.setup(tier, seed)
-    allcases = mod.cases(tier, seed)
-    mine = (dict(c, seed=seed) for k, c in enumerate(allcases) if k % nshards == shard)
+    # the thorough tier is the union of several seeded explorations of the same workload (rounds differ in every random draw;
+    # enumerated strata are simply repeated with other random fill-ins)
+    rounds = THOROUGH_ROUNDS.get(prop.upper(), 1) if tier == 'thorough' else 1
+    rounds = int(os.environ.get('VF_THOROUGH_ROUNDS', rounds))
+
+    def all_rounds():
+        k = 0
+        for rd in range(rounds):
+            sd = seed + rd * 100003
+            for c in mod.cases(tier, sd):
+                if rd and c.get('once'):
+                    continue
+                if k % nshards == shard:
+                    yield dict(c, seed=sd)
+                k += 1
+    mine = all_rounds()
     try:
         res = run_cases(mod, mine, budget)
         if hasattr(mod, 'finish'):
